@@ -156,4 +156,97 @@ theorem diagBranch_msem (isReal : K → Bool) (re : K → K) (blocks : Nat → L
   rw [diagApplyKind_eval b hb]
   interval_cases b <;> funext x <;> simp [modeDiag, msem]
 
+/-! ### mode-ordered products and helpers for the chain simplifier (C01 part 4) -/
+
+section chainhelpers
+variable (isReal : K → Bool) (re : K → K) (blocks : Nat → List (Matrix X X K) → Matrix X X K)
+  (leaf : Nat → Nat → Matrix X X K)
+local notation "S" => msem isReal re blocks leaf
+
+/-- product of a list of matrices in list order, or in reversed order -/
+def mprod (rev : Bool) (l : List (Matrix X X K)) : Matrix X X K := if rev then l.reverse.prod else l.prod
+
+theorem mprod_nil (rev : Bool) : mprod rev ([] : List (Matrix X X K)) = 1 := by cases rev <;> simp [mprod]
+theorem mprod_singleton (rev : Bool) (a : Matrix X X K) : mprod rev [a] = a := by cases rev <;> simp [mprod]
+theorem mprod_append (rev : Bool) (l1 l2 : List (Matrix X X K)) :
+    mprod rev (l1 ++ l2) = if rev then mprod rev l2 * mprod rev l1 else mprod rev l1 * mprod rev l2 := by
+  cases rev <;> simp [mprod, List.reverse_append, List.prod_append]
+theorem mprod_cons (rev : Bool) (a : Matrix X X K) (l : List (Matrix X X K)) :
+    mprod rev (a :: l) = if rev then mprod rev l * a else a * mprod rev l := by
+  have := mprod_append rev [a] l
+  simpa [mprod_singleton] using this
+
+/-- a scalar multiple of the identity can be pulled out of a product at any position -/
+theorem mprod_cons_smul (rev : Bool) (k : K) (a : Matrix X X K) (l : List (Matrix X X K)) :
+    mprod rev ((k • a) :: l) = k • mprod rev (a :: l) := by
+  rw [mprod_cons, mprod_cons]; cases rev <;> simp
+
+theorem modeScalar_mul (a b : K) (s : Nat) (hs : s < 4) : modeScalar (a * b) s = modeScalar a s * modeScalar b s := by
+  interval_cases s <;> simp [modeScalar, mul_comm]
+theorem modeScalar_one (s : Nat) (hs : s < 4) : modeScalar (1 : K) s = 1 := by
+  interval_cases s <;> simp [modeScalar]
+
+/-- is the list order reversed in the matrix product for mode index `s` -/
+def revOf (s : Nat) : Bool := !decide (s &&& 1 = (s >>> 1) &&& 1)
+
+/-- pending transformations of diagonal operators are 0..3 -/
+def diagOK : Op K (X → K) → Bool
+  | .diag _ _ t _ => decide (t < 4)
+  | _ => true
+
+/-- diagonal transformations in range and not a block-diagonal operator -/
+def okC (o : Op K (X → K)) : Bool := diagOK o && !isBlock o
+
+theorem isDiag_cases (o : Op K (X → K)) (h : isDiag o = true) : ∃ dm d t dt, o = Op.diag dm d t dt := by
+  cases o <;> simp [isDiag] at h
+  exact ⟨_, _, _, _, rfl⟩
+
+theorem mprod_one_cons (rev : Bool) (l : List (Matrix X X K)) : mprod rev ((1 : Matrix X X K) :: l) = mprod rev l := by
+  rw [mprod_cons]; cases rev <;> simp
+
+theorem mprod_zero_mem (rev : Bool) (l : List (Matrix X X K)) (h : (0 : Matrix X X K) ∈ l) : mprod rev l = 0 := by
+  cases rev
+  · simp only [mprod, Bool.false_eq_true, if_false]; exact List.prod_eq_zero h
+  · simp only [mprod, if_true]; exact List.prod_eq_zero (by simpa using h)
+
+theorem foldl_cons_like {α : Type} (f : List α → α → List α) (p : α → Bool)
+    (hf : ∀ acc o, p o = false → f acc o = o :: acc) (l acc : List α) (h : ∀ o ∈ l, p o = false) :
+    l.foldl f acc = l.reverse ++ acc := by
+  induction l generalizing acc with
+  | nil => rfl
+  | cons o os ih =>
+    simp only [List.foldl_cons]
+    rw [hf acc o (h o (by simp)), ih _ (fun x hx => h x (by simp [hx]))]
+    simp
+
+/-- without block-diagonal operators the block merge is the identity -/
+theorem chainMergeBlock_noblock (mk : List (Op K (X → K)) → Op K (X → K)) (l : List (Op K (X → K)))
+    (h : ∀ o ∈ l, isBlock o = false) : chainMergeBlock S mk l = l := by
+  unfold chainMergeBlock
+  rw [foldl_cons_like _ isBlock ?_ l [] h]
+  · simp
+  · intro acc o ho
+    cases o with
+    | blockdiag dm es => simp [isBlock] at ho
+    | _ =>
+      cases acc with
+      | nil => rfl
+      | cons a as => cases a <;> rfl
+
+theorem chainMergeDiag_ne (l : List (Op K (X → K))) (h : l ≠ []) : chainMergeDiag S l ≠ [] := by
+  fun_induction chainMergeDiag S l with
+  | case1 a b rest hab ih => exact ih (by simp)
+  | case2 a b rest hab ih => simp
+  | case3 l hl => exact h
+
+theorem appendScaling_ne (l : List (Op K (X → K))) (c : Bool) (o : Op K (X → K)) :
+    (if (c || l.isEmpty) = true then l ++ [o] else l) ≠ [] := by
+  split
+  · simp
+  · rename_i h
+    simp only [Bool.or_eq_true, not_or, Bool.not_eq_true, List.isEmpty_eq_false_iff] at h
+    exact h.2
+
+end chainhelpers
+
 end NiftyVerif.OpAlgebra
